@@ -597,6 +597,30 @@ func checkC19(c *Ctx) {
 		}
 	}
 
+	// ---- multi-part prefixes are unambiguous (K5)
+	r.Rule("C19.prefix-unambiguous", "K5", "a reader case that looks beyond the third character (composite \\C-\\M- / \\M-\\C- prefixes) requires a backslash at the junction, which the writer can never emit unescaped", 1)
+	{
+		n := 0
+		for _, e := range rt {
+			maxPos := 0
+			for pos := range e.Pat {
+				if pos > maxPos {
+					maxPos = pos
+				}
+			}
+			if maxPos < 4 || e.Numeric {
+				continue
+			}
+			key := fmt.Sprintf("inputrc.unescapeRunes:composite#%d", n)
+			n++
+			r.Check(e.Pat[3] == '\\', "C19.prefix-unambiguous", key, p.IPos(e.At), "junction requires a backslash",
+				"a composite-prefix case does not require a backslash after the first prefix: the writer's `\\C-x` followed by literal text such as `M-` is decoded as a control-meta prefix")
+		}
+		if n == 0 {
+			r.OK("C19.prefix-unambiguous", "inputrc.unescapeRunes:no-composite-case", p.Pos(UN.Pos()), "no composite prefix case in the reader")
+		}
+	}
+
 	// ---- dumps escape what they print (K3)
 	r.Rule("C19.dump-escapes", "K3", "key sequences and macro bodies printed by the dump commands in inputrc format pass through inputrc.Escape / EscapeMacro", 3)
 	isEsc := func(v ssa.Value) bool {
